@@ -124,7 +124,9 @@ def _replace_live_x(ch, ops, d, hier, pred, make):
 
 def _width_direct(ch, ops, d, hier, top):
     def pred(op, path, node):
-        return not path and node[0] in ("s", "sl", "sr", "cat") and d.mods[op[1]].insts[op[2]]["kind"] == "inst" and width_of(d, op[1], node) is not None
+        # instances and instance bundles (a scalar connection to a pair is wired in parallel, so any
+        # other width is a mismatch); arrays have their own class (w or n*w are both legal there)
+        return not path and node[0] in ("s", "sl", "sr", "cat") and d.mods[op[1]].insts[op[2]]["kind"] in ("inst", "pair") and width_of(d, op[1], node) is not None
 
     def make(mid, node, op):
         w = width_of(d, mid, node)
